@@ -157,9 +157,9 @@ def _run(ex: Executor, w: World, src: FunctionSource, contract: Contract, res: F
     if case is not None:
         for k, v in case.get("names", {}).items():
             bind[k] = w.const(v)
-    pre = st.fork()
     for r in contract.requires:
-        ctx = SpecCtx(ex, old=pre, cur=pre, names=dict(bind))
+        # the precondition talks about the entry state (old == current); facts recorded while evaluating it stay
+        ctx = SpecCtx(ex, old=st, cur=st, names=dict(bind))
         st.assume(ctx.eval_bool(r))
     pre = st.fork()
     ex.pre_state = pre
@@ -252,6 +252,8 @@ def _frame(ex: Executor, contract: Contract, pre: State, s: State, bind, tag, no
         ctx = SpecCtx(ex, old=pre, cur=pre, names=dict(bind))
         per_obj.setdefault(f, []).append(V.rid(ctx.eval(objexpr).t))
     a0 = ex.alloc_term(pre)
+    goals = []
+    fields = []
     for f, arr in s.heap.items():
         if f in any_field:
             continue
@@ -262,8 +264,9 @@ def _frame(ex: Executor, contract: Contract, pre: State, s: State, bind, tag, no
             continue
         o = z3.Int(f"fr!{f}!{tag}")
         excl = [o != x for x in per_obj.get(f, [])]
-        goal = z3.ForAll([o], z3.Implies(z3.And([o < a0, o >= 0 if False else z3.BoolVal(True)] + excl), arr[o] == old[o]))
-        ex.oblige(s, goal, f"frame.{f}.{tag}", "frame", node, f"only {modifies} may change: field {f} of pre-existing objects unchanged")
+        goal = z3.ForAll([o], z3.Implies(z3.And([o < a0] + excl), arr[o] == old[o]))
+        goals.append(goal)
+        fields.append(f)
     for g, term in s.ghost.items():
         if g == "$alloc" or g in ghosts_ok:
             continue
@@ -272,4 +275,13 @@ def _frame(ex: Executor, contract: Contract, pre: State, s: State, bind, tag, no
             old = z3.Const(f"G0_{g}", term.sort())
         if old.get_id() == term.get_id():
             continue
-        ex.oblige(s, term == old, f"frame.ghost.{g}.{tag}", "frame", node, f"ghost {g} unchanged")
+        goals.append(term == old)
+        fields.append("ghost " + g)
+    if goals:
+        import os
+
+        if os.environ.get("PYVC_FRAME_SPLIT"):
+            for f, g_ in zip(fields, goals):
+                ex.oblige(s, g_, f"frame.{f.replace(' ', '.')}.{tag}", "frame", node, f"only {modifies} may change: {f} of pre-existing objects unchanged")
+        else:
+            ex.oblige(s, z3.And(goals), f"frame.{tag}", "frame", node, f"only {modifies} may change; unchanged on pre-existing objects: {', '.join(fields)}")
